@@ -2,6 +2,7 @@ import PromProofs.QuantileList
 import PromProofs.QuantileFraction
 import PromProofs.QuantileSort
 import PromProofs.QuantileNativeMono
+import PromProofs.QuantileFractionMono
 /-
   C32 — Histogram query functions agree with the histograms they describe.
 
@@ -378,7 +379,8 @@ theorem histQuantile_no_finite_bound_witness :
     evalHQ linInterp (histogramQuantile (.fin 1) noFiniteBoundHist) = .pinf := by
   constructor <;> decide +kernel
 
-/-- NOT PROVED YET: fraction ∈ [0,1] and monotone under interval nesting (`fb` = in-bucket fraction in [0,1], monotone). -/
+/-- the statement: fraction ∈ [0,1] and monotone under interval nesting (`fb` = exponential in-bucket fraction,
+    any function with values in [0,1] that is monotone in `v`) -/
 def fraction_in_unit_and_mono_full : Prop :=
   ∀ (fb : XR → XR → XR → XR) (h : NHist XR), ConsistentHist h →
     (∀ l u v1 v2 : Rat, l < v1 → v1 ≤ v2 → v2 < u → ∃ f1 f2, fb (.fin l) (.fin u) (.fin v1) = .fin f1 ∧
@@ -386,6 +388,25 @@ def fraction_in_unit_and_mono_full : Prop :=
     ∀ lo1 up1 lo2 up2 : Rat, lo2 ≤ lo1 → lo1 ≤ up1 → up1 ≤ up2 →
       ∃ f1 f2, histogramFraction fb (.fin lo1) (.fin up1) h = .fin f1 ∧ histogramFraction fb (.fin lo2) (.fin up2) h = .fin f2 ∧
         0 ≤ f1 ∧ f1 ≤ f2 ∧ f2 ≤ 1
+
+/-- `HistogramFraction` of a consistent native histogram is a number in [0,1] and grows when the interval grows.
+    Proof: the loop ranks the two bounds independently (`hfLoop_split`, for every float type), each rank is the
+    monotone cumulative count `rankT` with values in [0, Count] (`rankT_mono`), and the result is
+    `(rank(up) - rank(lo)) / Count` (`hf_val`). -/
+theorem fraction_in_unit_and_mono : fraction_in_unit_and_mono_full := by
+  intro fb h C FBm lo1 up1 lo2 up2 h1 h2 h3
+  obtain ⟨L, N, R, _⟩ := C.rhist
+  exact fraction_core fb R FBm lo1 up1 lo2 up2 h1 h2 h3
+
+/-- the linear in-bucket fraction satisfies the hypothesis on `fb`; `exHist` (above) is a consistent histogram -/
+example : ∀ l u v1 v2 : Rat, l < v1 → v1 ≤ v2 → v2 < u →
+    ∃ f1 f2, (fun l u v => XR.div (XR.sub v l) (XR.sub u l)) (.fin l) (.fin u) (.fin v1) = .fin f1 ∧
+      (fun l u v => XR.div (XR.sub v l) (XR.sub u l)) (.fin l) (.fin u) (.fin v2) = .fin f2 ∧ 0 ≤ f1 ∧ f1 ≤ f2 ∧ f2 ≤ 1 := by
+  intro l u v1 v2 a b c
+  have hw : 0 < u - l := by grind
+  have hne : u - l ≠ 0 := by grind
+  exact ⟨(v1 - l) / (u - l), (v2 - l) / (u - l), by simp [XR.div_fin _ _ hne], by simp [XR.div_fin _ _ hne],
+    rat_div_nonneg (by grind) hw, rat_div_mono (by grind) hw, rat_div_le_one (by grind) hw⟩
 
 /-! ## histogram_count / histogram_sum / histogram_avg -/
 
